@@ -16,6 +16,14 @@ COMMON_ASSUME = [
 ]
 
 
+def B(weights=(9, 5, 2)):
+    g = [{'engine': 'histsim', 'flavour': 'plain', 'weight': weights[0]},
+         {'engine': 'histsim', 'flavour': 'asan', 'weight': weights[1]}]
+    if weights[2]:
+        g.append({'engine': 'histsim', 'flavour': 'tsan', 'weight': weights[2]})
+    return g
+
+
 def A(weights=(9, 4, 3), extra=None):
     g = [{'engine': 'buildsim', 'flavour': 'plain', 'weight': weights[0]},
          {'engine': 'buildsim', 'flavour': 'asan', 'weight': weights[1]}]
@@ -58,4 +66,37 @@ PROPS = {
     'C10': dict(level='exploration', budget={'quick': Q, 'thorough': T}, groups=A((8, 6, 2)),
                 rule='as C08 for EliasFanoPGMIndex, plus: the returned pos equals the estimate recomputed from the true predecessor segment (segment keys decoded from the Elias-Fano code through a subclass)',
                 assumptions=COMMON_ASSUME + ['E1 (construction team) is the only simulator-owned dimension; no fault kind applies']),
+    'C18': dict(level='exploration', budget={'quick': Q, 'thorough': T}, groups=A((5, 3, 1)) + B((4, 2, 1)),
+                rule='static part: one case = (C type int32/int64/uint32/uint64, run-time epsilon 1..4096, sorted C array, simulated machine/team/schedule); pgm_index_<t>_create/search judged by the C01+C02 oracles with that epsilon. '
+                     'non-trivial and distinct = distinct (type x epsilon x motif signature x n) with >= 2 segments and both present and absent queries, plus one per distinct trace of a team-built index. '
+                     'dynamic part: one case = a history of create/create_empty/insert_or_assign/erase/find/begin/lower_bound/iterator_next/iterator_destroy/size calls on dynamic_pgm_index_<int32|int64|uint32> judged against std::map, iterators held across updates and destroyed later; non-trivial = distinct trace hashes of histories with >= 2 updates',
+                assumptions=COMMON_ASSUME + ['dynamic_pgm_index_uint64 is declared in cpgm.h but not defined in cpgm.cpp, so it cannot be linked and is not exercised', 'c-interface/cpgm.cpp is compiled from the working tree into the engine']),
+    'C05': dict(level='exploration', budget={'quick': Q, 'thorough': T}, groups=B(),
+                rule='one case = (DynamicPGMIndex<K,V,PGMType> configuration, base, buffer_level, index_level, bulk-load, history of 1..400 (quick) / ..5000 (thorough) operations over a small key domain with unique values, invalid operations injected at random points, simulated machine/team/schedule for indexed levels >= 2^15 entries)' + '; after every operation find/count/lower_bound are compared with std::map, with sweeps over the key domain; non-trivial and distinct = distinct trace hashes of histories with >= 2 updates and (>= 2 non-empty levels or an erase-then-reinsert)',
+                assumptions=COMMON_ASSUME),
+    'C06': dict(level='exploration', budget={'quick': Q, 'thorough': T}, groups=B(),
+                rule='one case = (DynamicPGMIndex<K,V,PGMType> configuration, base, buffer_level, index_level, bulk-load, history of 1..400 (quick) / ..5000 (thorough) operations over a small key domain with unique values, invalid operations injected at random points, simulated machine/team/schedule for indexed levels >= 2^15 entries)' + '; traversal from begin() and from lower_bound results (bounded by the number of live keys), range(lo,hi) (exact length and content), size() and empty() are compared with std::map; non-trivial as C05',
+                assumptions=COMMON_ASSUME),
+    'C15': dict(level='exploration', budget={'quick': Q, 'thorough': T}, groups=B(),
+                rule='one case = (DynamicPGMIndex<K,V,PGMType> configuration, base, buffer_level, index_level, bulk-load, history of 1..400 (quick) / ..5000 (thorough) operations over a small key domain with unique values, invalid operations injected at random points, simulated machine/team/schedule for indexed levels >= 2^15 entries)' + '; after every insert_or_assign/erase the private layout is read through hook H3 and checked: levels strictly sorted, capacities from an independent formula, no data beyond used levels, every non-empty indexed level owns an index bit-identical to a freshly built one (property-level equivalent when chunked), emptied levels own no index; non-trivial as C05',
+                assumptions=COMMON_ASSUME + ['hook H3 (friend accessor) only reads']),
+    'C19': dict(level='exploration', budget={'quick': Q, 'thorough': T},
+                groups=[{'engine': 'buildsim', 'flavour': 'asan', 'weight': 6}, {'engine': 'buildsim', 'flavour': 'plain', 'weight': 4},
+                        {'engine': 'histsim', 'flavour': 'asan', 'weight': 4}, {'engine': 'histsim', 'flavour': 'plain', 'weight': 2}],
+                rule='one case = (class and configuration, input, a lifetime history: derive Y from X by copy-construct / copy-assign / move-construct / move-assign (those the type provides), then in seeded order destroy X (heap object, storage really released), churn the allocator, update X (dynamic), query Y); '
+                     'oracle: every answer of Y equals the answer X gave before; ASan: no use-after-free; plain flavour: glibc M_PERTURB overwrites every freed block. non-trivial and distinct = distinct (trace hash x step order)',
+                assumptions=COMMON_ASSUME + ['plain flavour relies on mallopt(M_PERTURB) to poison freed storage, ASan flavour on the quarantine']),
+    'C20': dict(level='fault_enumeration', budget={'quick': Q, 'thorough': T},
+                groups=[{'engine': 'buildsim', 'flavour': 'plain', 'weight': 5}, {'engine': 'buildsim', 'flavour': 'asan', 'weight': 3},
+                        {'engine': 'histsim', 'flavour': 'plain', 'weight': 5}, {'engine': 'histsim', 'flavour': 'asan', 'weight': 3}],
+                rule='the invalid argument is the injected fault and its position is what is enumerated. static classes, C wrapper: valid data followed by 1..3 copies of the reserved value (the only place a sorted array can hold it) -> std::invalid_argument / NULL; '
+                     'builder: non-increasing x after 1,2,3.. points, negative epsilon; multidimensional: one coordinate of one point at width >= FieldBits; DynamicPGMIndex: an out-of-order pair at EVERY position of bulk-loads up to 64 pairs (exhaustive per case) and sampled positions of larger ones, '
+                     'every base 0..255, the reserved mapped value and lo > hi at random points of histories, with the container state (through hook H3) compared before/after a rejected insert. non-trivial and distinct = distinct (class x input size x fault position) cases',
+                assumptions=COMMON_ASSUME + ['exhaustive only per small case (all positions of a bulk-load <= 64 pairs, all 256 bases); the set of cases itself is sampled']),
+    'C17': dict(level='exploration', budget={'quick': Q, 'thorough': T},
+                groups=[{'engine': 'buildsim', 'flavour': 'asan', 'weight': 5, 'profile': 'boundary'}, {'engine': 'buildsim', 'flavour': 'asan', 'weight': 4},
+                        {'engine': 'histsim', 'flavour': 'asan', 'weight': 3, 'profile': 'boundary'}, {'engine': 'histsim', 'flavour': 'asan', 'weight': 4}],
+                rule='AddressSanitizer is the oracle (a report ends the worker with exit code 77 and is gated, minimised and replayed like any other violation). boundary profile: n in 1..4 (and up to 2*Epsilon+4), empty dynamic containers, queries at lowest(), below first, above last, max-1, iterators driven to end(), boxes reaching the largest encodable code, absent points beyond all codes; '
+                     'plus a slice of every engine\'s ordinary corpus (all classes, incl. MultidimensionalPGMIndex and the C wrapper). non-trivial and distinct = distinct (configuration x input signature) tuples executed under ASan',
+                assumptions=COMMON_ASSUME + ['the claim is bounded to the inputs the engines generate; reads inside an allocation but outside the logical structure are not visible to ASan']),
 }
